@@ -13,10 +13,12 @@
 //	az   <name> <resource>             => 5 letters  AuthorizeAction for privileges 1,2,4,8,16: A allow, D deny,
 //	                                                 I invalid resource, P panic
 //	azp  <name> <resource> <privilege> => 1 letter   one arbitrary privilege value
+//	azn  <name> <resource> => answers joined by '|'  like az, for 24 separate NewUser calls on the same table:
+//	                                                 every distinct answer seen (one, if the decision is a function)
 //	clean <p> => <path.Clean(p)>        dir <p> => <path.Dir(p)>
 //	api  <p> => <auth.APIResource(p)>   dbres <db> => <auth.DatabaseResource(db)>
 //	dbpair <a> <b> => <DatabaseResource(a)> <DatabaseResource(b)>
-//	http <requireAuth 0|1> <method> <url path> <cred> <db> => <status> <served 0|1> <wrote 0|1>
+//	http <flags 0..3: bit0 auth-enabled, bit1 pprof-enabled> <method> <url path> <cred> <db> => <status> <served 0|1> <wrote 0|1>
 //	     cred = kind,f1,f2,f3,qu,qp   kind absent|other|basic|bearer; basic: f1 user f2 password;
 //	     bearer: f1 signature ok 0|1, f2 exp ("n" absent, 0 = literal zero, else seconds from now),
 //	     f3 username claim ("!none" absent); qu,qp = URL parameters u and p.
@@ -31,6 +33,7 @@ import (
 	"net/url"
 	"os"
 	"path"
+	"sort"
 	"strconv"
 	"strings"
 	"time"
@@ -98,11 +101,16 @@ type server struct {
 	stats  *expvar.Map
 }
 
+var builtinPages = map[string]bool{
+	"/kapacitor/v1/:routes": true, "/kapacitor/v1/debug/vars": true, "/kapacitor/v1/debug/pprof/": true,
+	"/kapacitor/v1/debug/pprof/cmdline": true, "/kapacitor/v1/debug/pprof/symbol": true, "/kapacitor/v1/debug/pprof/heap": true,
+}
+
 var methods = []string{"GET", "POST", "PATCH", "PUT", "DELETE", "HEAD", "OPTIONS"}
 
-func newServer(requireAuth bool, fa *fakeAuth) *server {
+func newServer(requireAuth, pprof bool, fa *fakeAuth) *server {
 	s := &server{pw: &pointsWriter{}, stats: new(expvar.Map).Init()}
-	s.h = httpd.NewHandler(requireAuth, false, false, false, false, s.stats, kit.Diag().NewHTTPDHandler(), secret)
+	s.h = httpd.NewHandler(requireAuth, pprof, false, false, false, s.stats, kit.Diag().NewHTTPDHandler(), secret)
 	s.h.AuthService = fa
 	s.h.PointsWriter = s.pw
 	rec := func(w http.ResponseWriter, r *http.Request) { s.served++; w.WriteHeader(http.StatusOK) }
@@ -226,6 +234,11 @@ func doHTTP(s *server, method, urlPath, cred, db string) (obs string) {
 	if s.served > served0 || statInt(s.stats, "ping_req") > ping0 {
 		served = 1
 	}
+	// the other built-in pages cannot be instrumented: every refusal of the filter chain writes 301/401/403/404,
+	// so a 200 from one of these URLs means its handler ran
+	if w.Code == 200 && method == "GET" && builtinPages[strings.Replace(urlPath, "/kapacitor/v1preview/", "/kapacitor/v1/", 1)] {
+		served = 1
+	}
 	wrote := 0
 	if s.pw.calls > wrote0 {
 		wrote = 1
@@ -236,7 +249,7 @@ func doHTTP(s *server, method, urlPath, cred, db string) (obs string) {
 // execCase runs the op lines of one case and returns them with observations.
 func execCase(ops []string) (out []string) {
 	fa := &fakeAuth{users: map[string]account{}, subs: map[string]account{}}
-	servers := map[bool]*server{}
+	servers := map[string]*server{}
 	users := map[string]auth.User{}
 	guard := func(line string, f func() string) {
 		defer func() {
@@ -282,6 +295,26 @@ func execCase(ops []string) (out []string) {
 				}
 				return string(b)
 			})
+		case t[0] == "azn" && len(t) == 3:
+			// the same account, built 24 times: every answer the implementation can give (sorted, distinct)
+			guard(line, func() string {
+				a := fa.users[un(t[1])]
+				seen := map[string]bool{}
+				for i := 0; i < 24; i++ {
+					u := a.user()
+					var b []byte
+					for _, p := range []auth.Privilege{1, 2, 4, 8, 16} {
+						b = append(b, decide(u, un(t[2]), p))
+					}
+					seen[string(b)] = true
+				}
+				var all []string
+				for k := range seen {
+					all = append(all, k)
+				}
+				sort.Strings(all)
+				return strings.Join(all, "|")
+			})
 		case t[0] == "azp" && len(t) == 4:
 			guard(line, func() string {
 				p, _ := strconv.ParseUint(t[3], 10, 32)
@@ -301,11 +334,11 @@ func execCase(ops []string) (out []string) {
 			})
 		case t[0] == "http" && len(t) == 6:
 			guard(line, func() string {
-				ra := t[1] == "1"
-				s, ok := servers[ra]
+				// flags: 0 nothing, 1 authentication, 2 pprof exposed, 3 both
+				s, ok := servers[t[1]]
 				if !ok {
-					s = newServer(ra, fa)
-					servers[ra] = s
+					s = newServer(t[1] == "1" || t[1] == "3", t[1] == "2" || t[1] == "3", fa)
+					servers[t[1]] = s
 				}
 				return doHTTP(s, un(t[2]), un(t[3]), t[4], un(t[5]))
 			})
